@@ -543,8 +543,90 @@ func elemsSupported(es *Sort) bool {
 		return false
 	}
 	switch es {
-	case SStr, SInt, SPtr, SBool:
+	case SStr, SInt, SPtr, SBool, SIfc:
 		return true
 	}
 	return strings.HasPrefix(es.Name, "TP_")
+}
+
+type ancestor struct {
+	t     *Term
+	bound *Term   // smallest allocation counter of the hops walked so far (nil for the start)
+	conds []*Term // conditions of the conditional hops walked so far
+}
+
+// ancestors lists the versions reachable from t by walking fresh-only hops backwards (t itself first).
+func (h *HeapCtx) ancestors(t *Term) []ancestor {
+	out := []ancestor{{t: t}}
+	cur := t
+	var bound *Term
+	var conds []*Term
+	for steps := 0; steps < 64; steps++ {
+		fp, ok := h.freshFrom[cur.S]
+		if !ok {
+			break
+		}
+		if bound == nil {
+			bound = fp.next
+		} else {
+			bound = mk(SInt, "ite", Lt(fp.next, bound), fp.next, bound)
+		}
+		if fp.cond != nil {
+			conds = append(conds, fp.cond)
+		}
+		cur = fp.old
+		out = append(out, ancestor{t: cur, bound: bound, conds: append([]*Term{}, conds...)})
+	}
+	return out
+}
+
+// noteMergeHop: the merged version nv of several versions that all descend from a common ancestor by fresh-only hops
+// also differs from that ancestor only at objects allocated after the smallest bound.
+func (h *HeapCtx) noteMergeHop(nv *Term, ts []*Term, edgeConds []*Term) {
+	if h.freshFrom == nil || len(ts) == 0 {
+		return
+	}
+	first := h.ancestors(ts[0])
+	for _, a := range first {
+		bound := a.bound
+		var conds []*Term
+		for _, c := range a.conds {
+			conds = append(conds, Implies(edgeConds[0], c)) // a hop condition of one path matters only on that path
+		}
+		okAll := true
+		for ti, t := range ts[1:] {
+			found := false
+			for _, b := range h.ancestors(t) {
+				if b.t.S == a.t.S {
+					found = true
+					if b.bound != nil {
+						if bound == nil {
+							bound = b.bound
+						} else {
+							bound = mk(SInt, "ite", Lt(b.bound, bound), b.bound, bound)
+						}
+					}
+					for _, c := range b.conds {
+						conds = append(conds, Implies(edgeConds[ti+1], c))
+					}
+					break
+				}
+			}
+			if !found {
+				okAll = false
+				break
+			}
+		}
+		if okAll {
+			if bound == nil {
+				return // all versions identical to the ancestor: nothing to record
+			}
+			var c *Term
+			if len(conds) > 0 {
+				c = And(conds...)
+			}
+			h.freshFrom[nv.S] = freshProv{a.t, bound, c}
+			return
+		}
+	}
 }
